@@ -1,5 +1,5 @@
 """C02 - SolveFailure is raised exactly when the hard constraints are unsatisfiable."""
-from .. import engine, fam_expr, fam_hist, fam_tree, fam_fault
+from .. import engine, fam_expr, fam_hist, fam_tree, fam_fault, fam_list
 
 LEVEL = "model_checking"
 
@@ -14,7 +14,9 @@ def scenarios(tier, seed):
             # their current values
             + fam_tree.family_T(tier, seed, n=10 if tier == "quick" else 120, probes=True, tag="T02") + fam_tree.family_nonrand_member(tier, seed)
             # unsatisfiable systems whose smallest conflict has 3..6 constraints, with the failure diagnostics on and off
-            + fam_fault.family_bigcore(tier, seed))
+            + fam_fault.family_bigcore(tier, seed)
+            # arithmetic next to list.sum while the list grows and shrinks between calls: no width bookkeeping may raise
+            + [x for x in fam_list.family_fixed(tier, seed) if "/sum_arith/" in x["id"]])
 
 
 def run(tier, seed, limit=0):
